@@ -558,8 +558,8 @@ class Recorder(_REAL_RANDOM_CLASS):
     draws (used by the C07 monitor: no draw may precede the seeding)."""
 
     def __init__(self):
-        self.log = []
         super().__init__(12345)
+        self.log = []
 
     def seed(self, a=None, version=2):
         if hasattr(self, 'log'):
@@ -567,11 +567,13 @@ class Recorder(_REAL_RANDOM_CLASS):
         super().seed(a, version)
 
     def random(self):
-        self.log.append(('draw',))
+        if hasattr(self, 'log'):
+            self.log.append(('draw',))
         return super().random()
 
     def getrandbits(self, k):
-        self.log.append(('draw',))
+        if hasattr(self, 'log'):
+            self.log.append(('draw',))
         return super().getrandbits(k)
 
 
